@@ -232,6 +232,8 @@ vector<string> ParameterList::getMatchingParameterNames(const string& pattern) c
     if (pos1 != 0)
       flag = false;
     pos1 += g.length();
+    if (!stj.hasMoreToken() && pos1 != name.length())
+      flag = false; // No wildcard in the pattern: the whole name must match.
     while (flag && stj.hasMoreToken())
     {
       g = stj.nextToken();
